@@ -450,7 +450,7 @@ PROPS = {
              "checked against validate(); a hand-encoded message with 1-4 records (compressed names) read with "
              "Rdata::read at the true span, neighbouring lengths/cursors, as a different type, at/after the end of the "
              "message, random (cursor,RDLENGTH) and after damaging one octet; and 1-5 valid records written by the Writer "
-             "in a random compression mode and read back. distinct = (operation, class, type, verdict) classes; valid RDATA is also validated and read under other classes (IN, CH, HS, NONE, ANY, 0, 65280) than the one it was shaped for; a third of the write/read round-trip messages have a size limit of 40-400 octets, so that some writes fail in the middle of their RDATA and later records are written after a rollback",
+             "in a random compression mode and read back. distinct = (operation, class, type, verdict) classes; valid RDATA is also validated and read under other classes (IN, CH, HS, NONE, ANY, 0, 65280) than the one it was shaped for; a third of the write/read round-trip messages have a size limit of 40-400 octets, so that some writes fail in the middle of their RDATA and later records are written after a rollback; one round trip in eight starts with a padding record that puts the records under test within 48 octets of offset 16384",
         assumptions=COMMON_ASSUMPTIONS + ["under standard (case-insensitive) compression, read-back names are compared ignoring ASCII case"],
         quick=plans(dict(build="dbg", nshards=16), dict(build="miri", nshards=4, timeout=900)),
         thorough=plans(dict(build="dbg", nshards=16), dict(build="rel", nshards=16),
